@@ -89,6 +89,7 @@ def main(argv=None):
     hashes = set()
     reach = {}
     watched = {}
+    detail = {}
     wall_workers = []
     for s, (p, out, log) in enumerate(procs):
         try:
@@ -122,6 +123,10 @@ def main(argv=None):
         for k, (seen, tot) in d['reach'].items():
             r = reach.setdefault(k, [0, tot])
             r[0] = max(r[0], seen)
+        for k, w in d.get('reach_detail', {}).items():
+            dd = detail.setdefault(k, {'file': w['file'], 'present': set(), 'seen': set()})
+            dd['present'].update(w['present'])
+            dd['seen'].update(w['seen'])
         for k, w in d.get('watched', {}).items():
             ww = watched.setdefault(k, {'want': set(), 'seen': set()})
             ww['want'].update(w['want'])
@@ -187,6 +192,7 @@ def main(argv=None):
             'distinct_states': {k: len(v) for k, v in feats.items()},
             'states_observed': {k: sorted(v)[:60] for k, v in feats.items()},
             'anchor_reach': reach,
+            'anchor_lines_not_executed': {k: sorted(w['present'] - w['seen']) for k, w in sorted(detail.items()) if w['present'] - w['seen']},
             'watched_statements': {k: {'want': sorted(w['want']), 'executed': sorted(w['seen'])} for k, w in watched.items()},
             'known_findings_seen': seen_known,
             'notes': {k[:300]: n for k, n in list(merged.notes.items())[:40]},
